@@ -25,6 +25,10 @@ pub mod cases_schemes;
 
 #[cfg(not(kani))]
 pub mod cases_curves;
+#[cfg(not(kani))]
+pub mod cases_frost;
+#[cfg(not(kani))]
+pub mod cases_extra;
 
 #[cfg(kani)]
 pub mod kani_harnesses;
@@ -49,5 +53,7 @@ pub fn all_cases() -> Vec<Case> {
     cases_fields::register(&mut v);
     cases_hash::register(&mut v);
     cases_schemes::register(&mut v);
+    cases_frost::register(&mut v);
+    cases_extra::register(&mut v);
     v
 }
